@@ -149,8 +149,10 @@ def floor_log2_frac(num, den):
         k += 1
     return k
 
-def rounding_spec(ctx, raw, w, e):
-    """smt bool: raw is the IEEE-754 double nearest (ties to even) to w * 10^e, finite and normal"""
+def rounding_spec(ctx, raw, w, e, upper_only=False):
+    """smt bool: raw is the IEEE-754 double nearest (ties to even) to w * 10^e, finite and normal.
+    upper_only: only `w * 10^e <= upper rounding boundary of raw` (non-strict): together with the full statement for a
+    smaller w0 it says that every value in [w0 * 10^e, w * 10^e) rounds to raw."""
     n, lz = normalise(ctx, w, 64)
     X, M = divmod_pow2(ctx, raw, 52)
     m = add(M, 1 << 52)
@@ -171,7 +173,10 @@ def rounding_spec(ctx, raw, w, e):
         lower_n = "(or (> {V} {l}) (and (= {V} {l}) {ev}))".format(V=sx(V), l=sx(dn1), ev=even)
         lower_p = "(>= {V} {l})".format(V=sx(V), l=sx(dn2))
         lower = "(ite (and (= %s 0) (> %s 1)) %s %s)" % (sx(M), sx(X), lower_p, lower_n)
-        alts.append("(and (= %s %s) %s %s)" % (sx(D), smt_int(d), upper, lower))
+        if upper_only:
+            alts.append("(and (= %s %s) (<= %s %s))" % (sx(D), smt_int(d), sx(V), sx(up)))
+        else:
+            alts.append("(and (= %s %s) %s %s)" % (sx(D), smt_int(d), upper, lower))
     return "(and (>= {X} 1) (<= {X} 2046) (or {alts}))".format(X=sx(X), alts=" ".join(alts))
 
 def exact_bits(w, e):
@@ -395,7 +400,7 @@ def check_exponents(job):
                 # routes that reach the callee), then, if that is not unsat, under the whole path
                 c2 = c.fork()
                 if trunc_mode:
-                    spec = "(not (and %s %s))" % (rounding_spec(c2, raw, w, e), rounding_spec(c2, raw, add(w, 1), e))
+                    spec = "(not (and %s %s))" % (rounding_spec(c2, raw, w, e), rounding_spec(c2, raw, add(w, 1), e, upper_only=True))
                 else:
                     spec = "(not %s)" % (rounding_spec(c2, raw, w, e) if pin_k is None else rounding_spec_abs(c2, raw, w, e, wlo, whi))
                 verdict = None
@@ -414,7 +419,7 @@ def check_exponents(job):
                     verdict = r
                     if r == "sat":
                         vals = concretise(solver, c2, w, neg, trunc, [spec], e) if not any(v["exp10"] == e for v in res["violations"]) else None
-                        (res["violations"] if vals else res["unrealisable"]).append({"exp10": e, "w": (vals or {}).get(w.s), "neg": (vals or {}).get(neg.s), "kind": "rounding", "trace": c.trace})
+                        (res["violations"] if vals else res["unrealisable"]).append({"exp10": e, "w": (vals or {}).get(w.s), "neg": (vals or {}).get(neg.s), "kind": "rounding", "trunc": bool(trunc_mode), "trace": c.trace})
                     elif r == "unknown":
                         res["unknown"].append((e, "rounding"))
                     elif r != "unsat":
